@@ -780,3 +780,93 @@ Proof.
   intros shorten clean os p. induction os as [|o r IH]; simpl; [reflexivity|].
   unfold stacks_call. rewrite IH. reflexivity.
 Qed.
+
+(* ================================================================== computeTotal meets total_spec *)
+Section Total.
+  Variable o : opts.
+  Let v (s : sample) : Z := value_at (o_index o) (s_val s).
+  Let d (s : sample) : Z := match o_meandiv o with Some k => value_at k (s_val s) | None => 0 end.
+
+  Lemma total_step_exact : forall D T Db Tb A s,
+    0 <= Tb <= T -> Z.abs D <= A -> Z.abs Db <= A ->
+    T + Z.abs (v s) < two63 -> A + Z.abs (d s) < two63 ->
+    total_step o (D, T, Db, Tb) s =
+      (D + d s, T + Z.abs (v s),
+       (if diff_base s then Db + d s else Db), (if diff_base s then Tb + Z.abs (v s) else Tb)).
+  Proof.
+    intros D T Db Tb A s HT HD HDb Hv Hd. unfold total_step. fold (v s). fold (d s). unfold sample_value. fold (v s).
+    assert (Ev : (if v s <? 0 then neg_i64 (v s) else v s) = Z.abs (v s)).
+    { destruct (Z.ltb_spec (v s) 0).
+      - unfold neg_i64. rewrite wrap_i64_small; unfold two63 in *; lia.
+      - lia. }
+    rewrite Ev.
+    rewrite (wrap_i64_small (T + Z.abs (v s))) by (unfold two63 in *; lia).
+    rewrite (wrap_i64_small (D + d s)) by (unfold two63 in *; lia).
+    destruct (diff_base s); [|reflexivity].
+    rewrite (wrap_i64_small (Db + d s)) by (unfold two63 in *; lia).
+    rewrite (wrap_i64_small (Tb + Z.abs (v s))) by (unfold two63 in *; lia).
+    reflexivity.
+  Qed.
+
+  Lemma total_fold_exact : forall r D T Db Tb A,
+    0 <= Tb <= T -> Z.abs D <= A -> Z.abs Db <= A ->
+    T + sum_abs v r < two63 -> A + sum_abs d r < two63 ->
+    fold_left (total_step o) r (D, T, Db, Tb) =
+      (D + sum_of d r, T + sum_abs v r, Db + sum_of d (filter diff_base r), Tb + sum_abs v (filter diff_base r)).
+  Proof.
+    induction r as [|s r IH]; intros D T Db Tb A HT HD HDb Hv Hd.
+    - simpl. rewrite !Z.add_0_r. reflexivity.
+    - cbn [fold_left]. unfold sum_abs in Hv, Hd. simpl in Hv, Hd. fold (sum_abs v r) in Hv. fold (sum_abs d r) in Hd.
+      assert (Hnv : 0 <= sum_abs v r) by (clear; unfold sum_abs; induction r; simpl; lia).
+      assert (Hnd : 0 <= sum_abs d r) by (clear; unfold sum_abs; induction r; simpl; lia).
+      rewrite (total_step_exact D T Db Tb A s) by lia.
+      destruct (diff_base s) eqn:Eb.
+      + rewrite (IH _ _ _ _ (A + Z.abs (d s))) by lia.
+        cbn [filter]. rewrite Eb. unfold sum_abs, sum_of. cbn [fold_right]. rewrite !Z.add_assoc. reflexivity.
+      + rewrite (IH _ _ _ _ (A + Z.abs (d s))) by lia.
+        cbn [filter]. rewrite Eb. unfold sum_abs, sum_of. cbn [fold_right]. rewrite !Z.add_assoc. reflexivity.
+  Qed.
+
+  Lemma sum_abs_filter_le : forall f (r : list sample), 0 <= sum_abs f (filter diff_base r) <= sum_abs f r.
+  Proof.
+    intros f r. unfold sum_abs. induction r as [|s r IH]; simpl; [lia|].
+    destruct (diff_base s); simpl; lia.
+  Qed.
+
+  Lemma quot_abs_le : forall t dv, 0 <= t -> dv <> 0 -> Z.abs (Z.quot t dv) <= t.
+  Proof.
+    intros t dv Ht Hd. rewrite <- Z.quot_abs by exact Hd. rewrite Z.quot_div_nonneg by lia.
+    rewrite (Z.abs_eq t) by exact Ht. apply Z.div_le_upper_bound; [lia|]. nia.
+  Qed.
+
+  (* wherever the specification demands a value, the model of computeTotal delivers it *)
+  Lemma compute_total_meets_spec : forall p t, total_spec o p = Some t -> compute_total o p = t.
+  Proof.
+    intros p t H. unfold total_spec in H. fold v in H. fold d in H.
+    destruct ((two63 <=? sum_abs v (p_sample p)) || (two63 <=? sum_abs d (p_sample p))) eqn:G; [discriminate|].
+    apply orb_false_iff in G. destruct G as [G1 G2]. apply Z.leb_gt in G1. apply Z.leb_gt in G2.
+    unfold compute_total.
+    rewrite (total_fold_exact (p_sample p) 0 0 0 0 0) by (simpl; lia). simpl Z.add.
+    pose proof (sum_abs_filter_le v (p_sample p)) as Hf.
+    destruct (0 <? sum_abs v (filter diff_base (p_sample p))) eqn:E.
+    - inversion H; subst; clear H.
+      destruct (sum_of d (filter diff_base (p_sample p)) =? 0) eqn:E0; [reflexivity|].
+      apply wrap_i64_small.
+      pose proof (quot_abs_le (sum_abs v (filter diff_base (p_sample p))) (sum_of d (filter diff_base (p_sample p)))
+                              (proj1 Hf) (proj1 (Z.eqb_neq _ _) E0)) as Hq.
+      unfold two63 in *. lia.
+    - inversion H; subst; clear H.
+      destruct (sum_of d (p_sample p) =? 0) eqn:E0; [reflexivity|].
+      apply wrap_i64_small.
+      assert (Hnv : 0 <= sum_abs v (p_sample p)) by lia.
+      pose proof (quot_abs_le (sum_abs v (p_sample p)) (sum_of d (p_sample p)) Hnv (proj1 (Z.eqb_neq _ _) E0)) as Hq.
+      unfold two63 in *. lia.
+  Qed.
+End Total.
+
+Lemma stacks_total_lemma : forall shorten clean o p t,
+  total_spec o p = Some t -> ss_total (stacks_of shorten clean o p) = t.
+Proof.
+  intros shorten clean o p t H. unfold stacks_of.
+  destruct (make_initial_stacks shorten clean o p) as [stacks s]. simpl. now apply compute_total_meets_spec.
+Qed.
